@@ -51,7 +51,7 @@ def run_checks(d, checks, tier):
 
 def add(wt, n, prop, checks, tier, skip_tests):
     patch, demo = os.path.join(wt, f'patch{n}.diff'), os.path.join(wt, f'demo{n}.py')
-    name = f'{prop}-{n}'
+    name = NAME or f'{prop}-{n}'
     d, r = scratch_with_patch(patch)
     meta = {'property': prop, 'name': name, 'source': 'independent sub-agent given only the property text and a scratch worktree'}
     try:
@@ -118,8 +118,12 @@ def rerun(filters, tier, all_checks):
     return 1 if bad else 0
 
 
+NAME = None
+
 if __name__ == '__main__':
     a = sys.argv[1:]
+    if '--as' in a:
+        NAME = a[a.index('--as') + 1]
     tier = a[a.index('--tier') + 1] if '--tier' in a else 'quick'
     if a and a[0] == 'add':
         checks = a[a.index('--checks') + 1].split(',') if '--checks' in a else [a[3]]
